@@ -166,14 +166,7 @@ Proof.
   destruct (c_fn c) eqn:F; try discriminate Hf; try reflexivity.
   (* some *)
   cbn in D. apply andb_true_iff in D as [_ D]. destruct (c_flag c); [|reflexivity].
-  cbn in D. apply andb_true_iff in D as [Dn De]. apply Nat.eqb_eq in Dn. apply negb_true_iff in De.
-  unfold s_quant_vals. rewrite Dn.
-  assert (find (pred_app (c_pred c)) (elems (c_seq c)) = None) as ->.
-  { destruct (find (pred_app (c_pred c)) (elems (c_seq c))) eqn:E; [|reflexivity].
-    apply find_some in E as [Hin Hp].
-    assert (existsb (pred_app (c_pred c)) (elems (c_seq c)) = true) by (apply existsb_exists; eauto). congruence. }
-  assert (existsb (fun b => b) (map (pred_app (c_pred c)) (elems (c_seq c))) = false) as ->; [|reflexivity].
-  rewrite <- De. clear. induction (elems (c_seq c)) as [|x t IH]; [reflexivity|]. cbn. now rewrite IH.
+  cbn in D. rewrite D. reflexivity.
 Qed.
 
 Theorem map_meets_spec : forall c, (c_fn c = FMap \/ c_fn c = FMapcar) -> in_domain c = true -> m_call c = s_call c.
